@@ -447,40 +447,40 @@ def drv_1d(tier):
                '(uniform, dadi-like, random with spacing>2e-3, dyadic), first/last point overshooting by -1e-16/+2.2e-16; densities '
                'positive/signed/spike/1-over-x/smooth; analytic path vs exact Fraction integration at 4 eps*cond, direct and '
                'het_ascertained paths vs exact trapezoid weights at 16 eps*mass*D; total mass, projection n->m, linearity, '
-               'analytic-vs-direct within the rigorous trapezoid error bound' % ('60' if tier == 'quick' else '1500'))
-    _run_cases(d, tier, 1, 60 if tier == 'quick' else 1500, 40, (3, 40))
+               'analytic-vs-direct within the rigorous trapezoid error bound' % ('150' if tier == 'quick' else '2500'))
+    _run_cases(d, tier, 1, 150 if tier == 'quick' else 2500, 40, (3, 40))
     return d.results()
 
 
 def drv_2d(tier):
     d = Driver('C05', '2d', bound='2-D from_phi: %s random cases; n in 1..40 per axis (quick: 1..24), grids 3..24 points incl. overshoot; '
                'analytic (linalg) path vs tensor product of exact 1-D weights; direct/het xx,yy vs exact trapezoid weights; total mass, '
-               'projection, marginalise-commutes, linearity, analytic-vs-direct bound' % ('40' if tier == 'quick' else '800'))
-    _run_cases(d, tier, 2, 40 if tier == 'quick' else 800, 24 if tier == 'quick' else 40, (3, 24))
+               'projection, marginalise-commutes, linearity, analytic-vs-direct bound' % ('100' if tier == 'quick' else '1500'))
+    _run_cases(d, tier, 2, 100 if tier == 'quick' else 1500, 24 if tier == 'quick' else 40, (3, 24))
     return d.results()
 
 
 def drv_3d(tier):
     d = Driver('C05', '3d', bound='3-D from_phi: %s random cases; n in 1..12, grids 3..9 points (third axis on its own grid in half the '
                'cases), overshoot; analytic vs exact tensor weights, direct/het xx,yy,zz vs exact trapezoid weights, identities as 2-D'
-               % ('30' if tier == 'quick' else '600'))
-    _run_cases(d, tier, 3, 30 if tier == 'quick' else 600, 12, (3, 9))
+               % ('80' if tier == 'quick' else '1500'))
+    _run_cases(d, tier, 3, 80 if tier == 'quick' else 1500, 12, (3, 9))
     return d.results()
 
 
 def drv_4d(tier):
     d = Driver('C05', '4d', bound='4-D from_phi: %s random cases; n in 1..6 (direct paths n<=4), grids 3..6 points (axes 3,4 on their own grids in '
                'half the cases), overshoot; analytic vs exact tensor weights, direct/het vs exact trapezoid weights, identities'
-               % ('16' if tier == 'quick' else '300'))
-    _run_cases(d, tier, 4, 16 if tier == 'quick' else 300, 6, (3, 6), direct_nmax=4)
+               % ('40' if tier == 'quick' else '800'))
+    _run_cases(d, tier, 4, 40 if tier == 'quick' else 800, 6, (3, 6), direct_nmax=4)
     return d.results()
 
 
 def drv_5d(tier):
     d = Driver('C05', '5d', bound='5-D from_phi: %s random cases; n in 1..4, grids 3..5 points (axes 3..5 on their own grids in half the cases), '
                'overshoot; analytic vs exact tensor weights; total, projection, marginalise, linearity (the 5-D non-analytic options are '
-               'exercised in dispatch5d)' % ('10' if tier == 'quick' else '150'))
-    _run_cases(d, tier, 5, 10 if tier == 'quick' else 150, 4, (3, 5), do_direct=False)
+               'exercised in dispatch5d)' % ('24' if tier == 'quick' else '400'))
+    _run_cases(d, tier, 5, 24 if tier == 'quick' else 400, 4, (3, 5), do_direct=False)
     return d.results()
 
 
@@ -597,7 +597,7 @@ def admix_oracle_exact_2d(phi, ns, xxs, props):
 def drv_admix(tier):
     import numpy
     from dadi import Spectrum
-    nc = 36 if tier == 'quick' else 600
+    nc = 120 if tier == 'quick' else 2400
     d = Driver('C05', 'admix', bound='from_phi(admix_props=...) in 2-D, 3-D, 4-D: %d random cases; proportion matrices identity (int and float), '
                'permutation, dyadic rows (entries k/16 incl. 0 and 1), random rows summing to 1; 2-D: n<=8, grids 3..9 pts, oracle exact Fractions; '
                '3-D: n<=4, 3..6 pts; 4-D: n<=2, 3..4 pts, oracle float64 explicit trapezoid sum with fsum; tolerance 64 eps*mass*D; identity '
@@ -689,7 +689,7 @@ def drv_bbconv(tier):
     import mpmath
     from dadi import Numerics
     mpmath.mp.dps = 40
-    nc = 120 if tier == 'quick' else 1500
+    nc = 240 if tier == 'quick' else 5000
     d = Driver('C05', 'bbconv', bound='Numerics.BetaBinomConvolution(i, nInd, alpha, beta, ploidy): %d random (nInd, ploidy, alpha, beta) with ploidy 2..8, '
                'nInd 1..20 for ploidy 2 and 1..6 otherwise (n<=40), alpha,beta log-uniform in [1e-6,1e6] plus the 1e-20-type end values dadi uses; '
                'all i in 0..n: value vs 40-digit rising-factorial convolution at relative 16 eps*(a+b)(1+log(a+b))*nInd+1e-12 (lgamma round-off) + 1e-13 absolute, '
@@ -749,7 +749,7 @@ def inbreeding_weights(n, xx, F, ploidy, het=False):
 def drv_inbreeding(tier):
     import numpy
     from dadi import Spectrum
-    nc = 36 if tier == 'quick' else 500
+    nc = 120 if tier == 'quick' else 2400
     d = Driver('C05', 'inbreeding', bound='from_phi_inbreeding in 1-D, 2-D, 3-D: %d random cases; F in {1e-3..0.999} per population, ploidy 2..8, '
                'n = ploidy*nInd <= 24 (1-D), 12 (2-D), 8 (3-D), grids 3..12 / 3..8 / 3..5 points incl. overshoot, het_ascertained none/xx/yy/zz; '
                'value vs explicit trapezoid sum with 40-digit beta-binomial-convolution kernels at 1e-9*mass; sum over entries = trapezoid mass '
@@ -838,7 +838,7 @@ def drv_inbreeding_limit(tier):
     <= nInd p (p-1) / (2c) per population, hence |inbred - direct| <= sum_k nInd_k p_k (p_k-1)/(2 c_k) * mass(|phi|)."""
     import numpy
     from dadi import Spectrum
-    nc = 24 if tier == 'quick' else 300
+    nc = 60 if tier == 'quick' else 1200
     d = Driver('C05', 'inbreeding_limit', bound='from_phi_inbreeding with F in {1e-3,1e-4,1e-5,1e-6} vs from_phi(force_direct=True), 1-D..3-D, %d random cases, '
                'ploidy 2..8, n<=16/8/6, grids 3..10 points: |difference| <= sum_k nInd_k p_k (p_k-1) F_k/(2(1-F_k)) * mass(|phi|) + 1e-8*mass '
                '(rigorous coupling bound + gammaln round-off); the direct spectrum itself is checked against exact weights in the other tasks' % nc)
